@@ -23,12 +23,11 @@ RULE = ("cases: DAG codes -> dag_to_cpdag; PDAG codes with acyclic directed part
 ASSUMPTIONS = ["brute-force oracle correct (self-check counts)", "PDAGs with cyclic directed part are out of the quantifier (counted only)"]
 EXHAUSTIVE = {"quick": True, "thorough": True}
 SOFT_LIMIT = {"quick": 240, "thorough": 1700}
-REQUIRED_FUNCS = ["sempler/utils.py:dag_to_cpdag", "sempler/utils.py:pdag_to_cpdag", "sempler/utils.py:order_edges",
-                  "sempler/utils.py:label_edges", "sempler/utils.py:pdag_to_dag"]
+REQUIRED_FUNCS = ["sempler/utils.py:dag_to_cpdag", "sempler/utils.py:pdag_to_cpdag"]
 REQUIRED_COUNTERS = {"quick": {"cpdag:compelled-outside-vstructure": 100, "cpdag:has-reversible": 1000, "pdag:no-extension": 50,
-                               "label:w-loop-compels-all": 10, "label:z-exists": 10, "label:reversible": 10},
+                               },
                      "thorough": {"cpdag:compelled-outside-vstructure": 100, "cpdag:has-reversible": 1000, "pdag:no-extension": 500,
-                                  "label:w-loop-compels-all": 10, "label:z-exists": 10, "label:reversible": 10}}
+                                  }}       # the label:* counters (branches of the library's own label_edges) are evidence only: a rewrite need not have such a routine
 N = {"quick": {"weighted": 1500, "sampled": 900, "pdag5": 30000}, "thorough": {"weighted": 100000, "sampled": 50000, "pdag5": 0}}
 
 
@@ -82,7 +81,10 @@ def setup(rec):
         raise RuntimeError("oracle self-check failed")
     rec.add("oracle:dags/classes", "p=5: %d DAGs in %d classes" % (len(G.all_dag_codes(5)), len(G.class_table(5))))
     # evidence-only monitor on label_edges: which labelling branches were exercised
-    orig = U.label_edges
+    orig = getattr(U, "label_edges", None)
+    if orig is None:         # a rewrite need not have such a routine: the evidence-only monitor is simply not installed
+        rec.notes.append("no utils.label_edges to observe")
+        return
 
     def label_edges_monitor(ordered):
         res = orig(ordered)
